@@ -42,6 +42,7 @@ def c05(tier, seed):
             kw["wparams"] = {"tmean": 34, "dtr": 9}
             kw["irr"] = {"method": 1, "kw": {"SMT": [70] * 4}}
         scs.append(S(crop, seed=rnd.randrange(10 ** 6), regime=reg, **kw))
+    scs += L.hard_cases(rnd, None if tier == "thorough" else 5)
     return scs
 
 
@@ -80,6 +81,7 @@ def c06(tier, seed):
                          off_season=rnd.random() < 0.4, iwc=rnd.choice([None, {"value": ["WP"]}, {"wc_type": "Pct", "value": [25]}]),
                          regime=rnd.choice([None, "arid"]) if crop in L.CAL_CROPS else None,
                          harvest_date=rnd.choice([None, None, "08/15"]) if crop in L.CAL_CROPS and L.MATURITY_CD[crop] > 125 else None))
+    scs += L.hard_cases(rnd, None if tier == "thorough" else 4)
     return scs
 
 
